@@ -13,7 +13,7 @@ from ..harness import rule
 from ..index import AnalysisError
 from ..models import BASE_STUBS, explore_recv, frame_dims, mk_websocket, recv_config
 from ..rulekit import OPNAMES, path_text
-from ..values import C, FALSE, NONE, TRUE, App, Ref, Sym, Tup, concat
+from ..values import C, FALSE, NONE, TRUE, App, Ref, Sym, Tup, Value, concat
 
 Q = "_core:WebSocket.recv_data_frame"
 ACC = Sym("acc", "bytes")
@@ -261,4 +261,38 @@ def r_options(ctx):
     from .options import app_plumbing, create_connection_plumbing
     create_connection_plumbing(ctx)
     app_plumbing(ctx)
+
+
+@rule("R-C04-8", min_instances=1, title="per-fragment delivery through recv(): every fragment comes back with its own payload (a continuation fragment is not replaced by a constant)")
+def r8(ctx):
+    from ..models import explore_recv, frame_dims, recv_config
+    from ..rulekit import origins
+    idx = ctx.index
+    loc = idx.loc(idx.func("_core:WebSocket.recv").node)
+    I = Interp(idx, recv_config(extra_stubs={"_core:WebSocket.send_close": lambda *a: NONE, "_core:WebSocket.pong": lambda *a: NONE}))
+    n = 0
+    bad = None
+    for state in ("text_fired", "binary_fired"):
+        outs = explore_recv(ctx, I, "recv", state, fire=TRUE, skip=TRUE)
+        for o in outs:
+            d = frame_dims(I, o)
+            if d is None or o.kind != "return" or not (d["opcode"].lo == d["opcode"].hi == 0):
+                continue
+            n += 1
+            reads = [e.ret for e in o.effects if e.name == "recv_strict"]
+            payload = reads[-1] if reads else None
+            def has(t):
+                if not isinstance(t, Value):
+                    return False
+                if t.key() == payload.key():
+                    return True
+                return isinstance(t, App) and any(has(a) for a in t.args)
+            carries = payload is not None and has(I.resolve(o.run, o.value))
+            if not carries:
+                bad = bad or o
+    if n == 0:
+        raise AnalysisError("no continuation fragment delivered through recv() with per-fragment delivery on")
+    ctx.ob("_core:WebSocket.recv:fire_cont_frame:continuation-fragment-payload", bad is None, f"{n} paths: recv() returns the fragment's payload" if bad is None else
+           f"with fire_cont_frame=True recv() returns {bad.value!r} for a continuation fragment: its payload is dropped (recv_data() returns it)", loc,
+           {"path": path_text(bad)} if bad else None)
 
